@@ -46,8 +46,10 @@ TENANT_VARIANTS = [
 def _stage_runner(build):
     """build() must construct user dicts + Problem and return prob (not yet set up) or raise."""
     info = {"stage": None, "exc": None, "msg": None, "warnings": [], "produced_numbers": False}
+    # record=True swaps the display hook for a recorder and (via the filters-mutated counter) forgets the
+    # once-per-location registries; the filters themselves are left as the process has them, so a filter installed
+    # process-wide by library code earlier in this program shows up here as a missing warning
     with warnings.catch_warnings(record=True) as wlist:
-        warnings.simplefilter("always")
         try:
             info["stage"] = "build"
             prob = build()
@@ -286,6 +288,57 @@ def _bad_multisection_after_valid(field, too_long=False):
     return _bad_multisection(field, too_long)
 
 
+def _scenario_reuse_dict_new_mesh():
+    """A span / refinement study: the user keeps one surface dict, replaces dict['mesh'] and builds a new Problem.
+    That Problem must equal one built from a brand-new dict with the same content."""
+    import openmdao.api as om
+    from openaerostruct.geometry.utils import generate_mesh
+    from openaerostruct.geometry.geometry_group import Geometry
+    from openaerostruct.aerodynamics.aero_groups import AeroPoint
+
+    info = {"stage": "build", "exc": None, "msg": None, "warnings": [], "produced_numbers": False, "mismatch": None}
+
+    def surf(mesh):
+        return zoo._aero_surface("wing", mesh, True, np.zeros(2), viscous=True)
+
+    def analyse(s):
+        prob = om.Problem(reports=False)
+        ivc = om.IndepVarComp()
+        for n, v, u in (("v", 50.0, "m/s"), ("alpha", 4.0, "deg"), ("Mach_number", 0.2, None), ("re", 1e6, "1/m"),
+                        ("rho", 1.2, "kg/m**3"), ("cg", np.zeros(3), "m")):
+            ivc.add_output(n, val=v, units=u)
+        prob.model.add_subsystem("prob_vars", ivc, promotes=["*"])
+        prob.model.add_subsystem("wing", Geometry(surface=s))
+        prob.model.add_subsystem("aero_point_0", AeroPoint(surfaces=[s]), promotes_inputs=["v", "alpha", "Mach_number", "re", "rho", "cg"])
+        prob.model.connect("wing.mesh", "aero_point_0.wing.def_mesh")
+        prob.model.connect("wing.mesh", "aero_point_0.aero_states.wing_def_mesh")
+        prob.model.connect("wing.t_over_c", "aero_point_0.wing_perf.t_over_c")
+        with _quiet():
+            prob.setup()
+            prob.run_model()
+        return obs.read_outputs(prob)
+
+    try:
+        m1 = generate_mesh({"num_y": 7, "num_x": 2, "wing_type": "rect", "symmetry": True, "span": 10.0, "root_chord": 1.0})
+        m2 = generate_mesh({"num_y": 7, "num_x": 2, "wing_type": "rect", "symmetry": True, "span": 14.0, "root_chord": 1.0})
+        d = surf(m1)
+        analyse(d)
+        d["mesh"] = m2  # the user's edit between two studies
+        reused = analyse(d)
+        fresh = analyse(surf(m2.copy()))
+        worst = None
+        for k, v in fresh.items():
+            ok, err, scale = obs.cmp_arrays(reused.get(k, np.array([np.nan])), v, RT_ISOLATED, 0.0)
+            if not ok and (worst is None or err > worst[1]):
+                worst = (k, err, scale)
+        info["mismatch"] = worst
+        info["stage"] = "completed"
+    except Exception as e:  # noqa
+        info["exc"] = type(e).__name__
+        info["msg"] = str(e)[:200]
+    return info
+
+
 def _bad_even_num_y_crm():
     from openaerostruct.geometry.utils import generate_mesh
 
@@ -358,7 +411,7 @@ def _bad_one_wingbox_thickness(which, aerostruct):
     return _stage_runner(_struct_problem(mod, aerostruct=aerostruct))
 
 
-def _bad_multisection(field, too_long=False):
+def _bad_multisection(field, too_long=False, with_bpanels=False):
     from openaerostruct.geometry.geometry_group import build_sections
 
     def build():
@@ -369,6 +422,8 @@ def _bad_multisection(field, too_long=False):
             "root_chord": 1.0, "meshes": "gen-meshes", "nx": 2, "ny": [5, 5], "CL0": 0.0, "CD0": 0.015,
             "k_lam": 0.05, "c_max_t": 0.303, "with_viscous": False, "with_wave": False, "groundplane": False,
         }
+        if with_bpanels:
+            surface["bpanels"] = [4, 4]  # the mesh generator prefers bpanels over ny when both are given
         if field == "meshes":
             surface["meshes"] = [np.zeros((2, 3, 3))]
         elif too_long:
@@ -522,12 +577,23 @@ ERROR_TABLE = {
     "multisection_span_too_long_after_valid_build": (lambda: _bad_multisection_after_valid("span", True), "ValueError", None),
     "multisection_sweep_too_long_after_valid_build": (lambda: _bad_multisection_after_valid("sweep", True), "ValueError", None),
     "multisection_taper_too_long_after_valid_build": (lambda: _bad_multisection_after_valid("taper", True), "ValueError", None),
+    "multisection_taper_too_long_with_bpanels": (lambda: _bad_multisection("taper", True, True), "ValueError", None),
+    "multisection_span_too_long_with_bpanels": (lambda: _bad_multisection("span", True, True), "ValueError", None),
+    "multisection_sweep_length_with_bpanels": (lambda: _bad_multisection("sweep", False, True), "ValueError", None),
+    "reused_surface_dict_with_new_mesh": (_scenario_reuse_dict_new_mesh, "SCENARIO", None),
 }
 
 
 def judge_bad_setup(name, info):
     """Return None if the malformed set-up was handled as the property demands, else a description."""
     fn, exc, warn = ERROR_TABLE[name]
+    if exc == "SCENARIO":
+        if info["exc"]:
+            return "scenario raised %s: %s" % (info["exc"], info["msg"])
+        if info.get("mismatch"):
+            k_, e_, s_ = info["mismatch"]
+            return "a Problem built from the re-used dict differs from one built from a new dict: %s by %.3g (scale %.3g)" % (k_, e_, s_)
+        return None
     if exc == "ALIAS":
         if info["exc"]:
             return "mesh generator raised %s: %s" % (info["exc"], info["msg"])
